@@ -46,6 +46,7 @@ class P(Prop):
             self.corr_cases += 1
             cj = c_to_json(c)
             self.stats.case(cj, nontrivial=len(cj["nodes"]) > 4, sample={"c": cj} if i < 1 else None)
+            self.algo_compare(drv, c, cj, seed, o, sgs)
             if o != "ok" or o2 != "ok":
                 self.fail("search", f"supergates-raised-{o}" + (":multi-output" if len(c.outputs()) > 1 else ""),
                           f"supergates raised {o}", {"c": cj})
@@ -56,6 +57,45 @@ class P(Prop):
                           {"c": cj, "seed": seed})
             if self.too_many():
                 break
+
+    def algo_compare(self, drv, c, cj, seed, o, sgs):
+        """the implementation's list against the Lean model of the algorithm itself (CG/SupergatesAlgo.lean): the same
+        set of minimal supergates (as circuits), NetworkXUnfeasible exactly when the model's dependency graph is cyclic"""
+        m = drv.ask({"op": "supergates_algo", "c": cj, "seed": seed})
+        case = {"c": cj, "seed": seed, "algo": True}
+        if m["outcome"] != "ok":
+            if o == "ok" or m["outcome"] == "FUEL":
+                self.fail("corr", "supergates-algo", f"model: {m['outcome']}, implementation: {o}", case)
+            return
+        msgs = {}
+        for e in m["sgs"]:
+            k = canon(e["c"])
+            msgs[(tuple(k["nodes"]), tuple(k["edges"]))] = e["head"]
+        self.stats.bump("algo:" + ("cyclic" if m["cyclic"] else "ok") + (":dup-heads" if not m["heads_distinct"] else ""))
+        if not m["heads_distinct"]:
+            # which duplicate survives depends on id() order: every returned supergate must still be one of the model's
+            if o == "ok":
+                for s_ in sgs:
+                    k = canon(c_to_json(s_))
+                    if (tuple(k["nodes"]), tuple(k["edges"])) not in msgs:
+                        self.fail("corr", "supergates-algo", f"supergate {sorted(s_.outputs())} is not among the model's", case)
+                        return
+            return
+        if m["cyclic"]:
+            if not o.endswith("NetworkXUnfeasible"):
+                self.fail("corr", "supergates-algo", f"model: dependency graph cyclic, implementation: {o}", case)
+            return
+        if o != "ok":
+            self.fail("corr", "supergates-algo", f"model: ok, implementation raised {o}", case)
+            return
+        real = {}
+        for s_ in sgs:
+            k = canon(c_to_json(s_))
+            real[(tuple(k["nodes"]), tuple(k["edges"]))] = sorted(s_.outputs())
+        if set(real) != set(msgs):
+            only_i = [real[k] for k in set(real) - set(msgs)]
+            only_m = [msgs[k] for k in set(msgs) - set(real)]
+            self.fail("corr", "supergates-algo", f"supergate sets differ: only-impl heads {only_i} only-model heads {only_m}", case)
 
     def oracle(self, c):
         cj = c_to_json(c)
@@ -148,13 +188,23 @@ class P(Prop):
                     self.fail("search", "supercircuit-value", f"output {o_}: {v[o_]} vs {w[o_]} under {a}", case)
                     return
 
+    def oracle_super_if_single(self, c):
+        if len(c.outputs()) == 1:
+            self.oracle_super(c)
+
     def corpus(self):
         import json
         import os
         from common import VERIF
         p = os.path.join(VERIF, "findings", "K28.json")
         if os.path.exists(p):
-            self.oracle(c_from_json(json.load(open(p))["case"]["c"]))
+            ck = c_from_json(json.load(open(p))["case"]["c"])
+            self.oracle(ck)
+            # the model of the algorithm predicts the failure: its dependency graph between supergates is cyclic
+            for sd in range(3):
+                with ordered(sd):
+                    o, sgs = call(cg.tx.supergates, ck)
+                self.algo_compare(self.driver(), ck, c_to_json(ck), sd, o, sgs)
         # a supergate of one cone (z = not n) whose input n lies inside a larger supergate of another cone (y): the list
         # must still give the producer first
         c = cg.Circuit("cover")
@@ -175,12 +225,31 @@ class P(Prop):
             if i % 3 == 2:
                 self.oracle_super(self.gen_case(single=True))
             else:
-                self.oracle(self.gen_case())
+                c = self.gen_case()
+                self.oracle(c)
+                self.again_after_edit(c, lambda: self.oracle(c), p=0.25)
+                if i % 5 == 0:
+                    # chain: a circuit that limit_fanin returned earlier, edited in place by its owner (one more operand)
+                    o1, c2 = call(cg.tx.limit_fanin, c, 2)
+                    if o1 == "ok":
+                        try:
+                            op = gen.inplace_edit(self.rng, c2, exclude=("relabel", "output", "set_type", "rewire"))
+                        except Exception:  # noqa: BLE001
+                            op = None
+                        if op:
+                            self.stats.bump("history:transform-result-edited")
+                            self.oracle(c2)
+                            self.oracle_super_if_single(c2)
             if self.too_many():
                 break
 
     def replay(self, case):
         c = c_from_json(case["c"])
+        if case.get("algo"):
+            with ordered(case["seed"]):
+                o, sgs = call(cg.tx.supergates, c)
+            self.algo_compare(self.driver(), c, case["c"], case["seed"], o, sgs)
+            return
         if case.get("super"):
             self.oracle_super(c)
         else:
